@@ -41,6 +41,14 @@ int vf_choice(int n) {
 void vf_choice_end(void) { if (ch_pos != ch_n) { fprintf(stderr, "VF_SPEC skeleton vector not fully consumed\n"); _Exit(3); } }
 void vf_out(long v) { printf("OUT %ld\n", v); fflush(stdout); }
 void vf_witness(void) { }
+/* native counterpart of the wait hook: a real helper thread runs the function a little later, while the main thread is (supposed to be) blocked */
+typedef void rt_wait_fn(void);
+#include <pthread.h>
+#include <unistd.h>
+static pthread_t wait_thr; static int wait_thr_on; static rt_wait_fn *wait_fn;
+static void *wait_runner(void *a) { (void)a; usleep(30000); wait_fn(); return 0; }
+void vf_wait_arm(rt_wait_fn *f) { wait_fn = f; wait_thr_on = 1; pthread_create(&wait_thr, 0, wait_runner, 0); }
+void vf_wait_done(void) { if (wait_thr_on) { pthread_join(wait_thr, 0); wait_thr_on = 0; } }
 /* native counterpart of the lock-region injection hook (rt/rt.h): pthread_mutex_lock is interposed */
 typedef void rt_inject_fn(void);
 static rt_inject_fn *inject_f; static int inject_at, lock_events, in_hook;
